@@ -10,10 +10,15 @@ import (
 	"encoding/json"
 	"flag"
 	"fmt"
+	"io"
+	"log"
+	"net/http"
+	"net/http/httptest"
 	"sort"
 	"strings"
 	"sync"
 	"time"
+	"tkestack.io/kvass/pkg/api"
 
 	"github.com/prometheus/client_golang/prometheus"
 	"github.com/prometheus/prometheus/model/labels"
@@ -73,6 +78,8 @@ type cyInput struct {
 	Replicas []cyReplica `json:"replicas,omitempty"`
 	// a second cycle of the same coordinator (same explorer objects) with other shard scripts (C19)
 	Replicas2 []cyReplica `json:"replicas2,omitempty"`
+	// the coordinator talks to the scripted shards over real HTTP (pkg/api client) instead of the injectable functions
+	Wire bool `json:"wire,omitempty"`
 }
 
 type cyPostTarget struct {
@@ -130,6 +137,91 @@ type cyShardRT struct {
 	pushed   bool
 	now      time.Time
 	extraBad bool
+	srv      *httptest.Server
+}
+
+// serve puts the scripted shard behind a real HTTP server.  A scripted failure of a request is a transport failure
+// (the connection is closed without an answer) or, for every other one, an error answer of the sidecar's API.
+func (s *cyShardRT) serve() *httptest.Server {
+	nfail := 0
+	lastKilled := ""
+	fail := func(w http.ResponseWriter, err error) {
+		nfail++
+		key := ""
+		if r, ok := w.(interface{ kvhKey() string }); ok {
+			key = r.kvhKey()
+		}
+		if strings.HasPrefix(key, "GET ") && lastKilled == key {
+			// net/http sends an idempotent request again when the connection broke before any answer: the same attempt, seen twice
+			s.mu.Lock()
+			if len(s.reqs) > 0 {
+				s.reqs = s.reqs[:len(s.reqs)-1]
+			}
+			if strings.HasSuffix(key, "/runtimeinfo/") {
+				s.rtCalls--
+			}
+			s.mu.Unlock()
+			nfail--
+		}
+		if nfail%2 == 1 {
+			lastKilled = key
+			if hj, ok := w.(*keyedWriter).ResponseWriter.(http.Hijacker); ok {
+				if conn, _, e := hj.Hijack(); e == nil {
+					_ = conn.Close()
+					return
+				}
+			}
+		}
+		w.Header().Set("Content-Type", "application/json")
+		w.WriteHeader(503)
+		_ = json.NewEncoder(w).Encode(api.InternalErr(err, "scripted"))
+	}
+	ok := func(w http.ResponseWriter, v interface{}) {
+		w.Header().Set("Content-Type", "application/json")
+		_ = json.NewEncoder(w).Encode(api.Data(v))
+	}
+	srv := httptest.NewUnstartedServer(http.HandlerFunc(func(w0 http.ResponseWriter, r *http.Request) {
+		path := r.URL.Path
+		w := &keyedWriter{ResponseWriter: w0, key: r.Method + " " + path}
+		if r.Method == "GET" {
+			switch {
+			case strings.HasSuffix(path, "/targets/status/"):
+				m := map[uint64]*target.ScrapeStatus{}
+				if err := s.get(path, &m); err != nil {
+					fail(w, err)
+					return
+				}
+				ok(w, m)
+			default:
+				var rt *shard.RuntimeInfo
+				if err := s.get(path, &rt); err != nil {
+					fail(w, err)
+					return
+				}
+				ok(w, rt)
+			}
+			return
+		}
+		body, _ := io.ReadAll(r.Body)
+		var req interface{}
+		switch {
+		case strings.HasSuffix(path, "/status/config"):
+			req = &shard.UpdateConfigRequest{}
+		case strings.HasSuffix(path, "/extra_config"):
+			req = &prom.ExtraConfig{}
+		default:
+			req = &shard.UpdateTargetsRequest{}
+		}
+		_ = json.Unmarshal(body, req)
+		if err := s.postReq(strings.TrimSuffix(path, "/")+map[bool]string{true: "/", false: ""}[strings.HasSuffix(path, "/targets/")], req, nil); err != nil {
+			fail(w, err)
+			return
+		}
+		ok(w, nil)
+	}))
+	srv.Config.ErrorLog = log.New(io.Discard, "", 0)
+	srv.Start()
+	return srv
 }
 
 func (s *cyShardRT) get(url string, ret interface{}) error {
@@ -229,6 +321,7 @@ func (s *cyShardRT) postReq(url string, req interface{}, ret interface{}) error 
 }
 
 type cyManager struct {
+	wire   bool
 	in     *cyReplica
 	idx    int
 	shards []*cyShardRT
@@ -244,6 +337,14 @@ func (m *cyManager) Shards() ([]*shard.Shard, error) {
 	m.listed = true
 	ret := make([]*shard.Shard, 0, len(m.shards))
 	for i, s := range m.shards {
+		if m.wire {
+			// over the wire: the shard client's own api.Get / api.Post against an HTTP server that answers as scripted
+			if s.srv == nil {
+				s.srv = s.serve()
+			}
+			ret = append(ret, shard.NewShard(fmt.Sprintf("r%d-shard-%d", m.idx, i), s.srv.URL, s.in.Mode != "notready", quietLog()))
+			continue
+		}
 		sd := shard.NewShard(fmt.Sprintf("r%d-shard-%d", m.idx, i), fmt.Sprintf("http://r%d-shard-%d", m.idx, i),
 			s.in.Mode != "notready", quietLog())
 		sd.APIGet = s.get
@@ -331,10 +432,10 @@ func cmdCycle(args []string) error {
 	return firstErr
 }
 
-func buildManagers(reps []cyReplica, now time.Time) []*cyManager {
+func buildManagers(reps []cyReplica, now time.Time, wire bool) []*cyManager {
 	var ms []*cyManager
 	for ri := range reps {
-		m := &cyManager{in: &reps[ri], idx: ri}
+		m := &cyManager{in: &reps[ri], idx: ri, wire: wire}
 		for si := range reps[ri].Shards {
 			s := &reps[ri].Shards[si]
 			m.shards = append(m.shards, &cyShardRT{in: s, cfgOK: true, now: now, post: cyPost{Targets: []cyPostTarget{}}})
@@ -371,7 +472,16 @@ func runCycle(ci *cyInput) []cyOut {
 	}
 	now := time.Now()
 	rm := &cyRM{}
-	rm.ms = buildManagers(reps, now)
+	rm.ms = buildManagers(reps, now, ci.Wire)
+	defer func() {
+		for _, m := range rm.ms {
+			for _, s := range m.shards {
+				if s.srv != nil {
+					s.srv.Close()
+				}
+			}
+		}
+	}()
 
 	active := map[uint64]*discovery.SDTargets{}
 	for _, t := range ci.Active {
@@ -393,7 +503,19 @@ func runCycle(ci *cyInput) []cyOut {
 			ScrapeTimes: e.Times,
 		}
 	}
-	cfg := &prom.ConfigInfo{RawContent: []byte(cyRaw), ConfigHash: cyCoordHash, ExtraConfig: &prom.ExtraConfig{StopScrapeReason: cyStopReason}}
+	// the coordinator's configuration comes from a real ConfigManager: a good load, the administrator's stop reason, and
+	// afterwards a reload of a broken file that is rejected - the accepted configuration stays what it was.  The hash the
+	// scripted shards answer with stays the scripted one (what they compare is equality, not the value).
+	cm := prom.NewConfigManager()
+	if err := cm.ReloadFromRaw([]byte(cyRaw)); err != nil {
+		panic(err)
+	}
+	_ = cm.UpdateExtraConfig(prom.ExtraConfig{StopScrapeReason: cyStopReason})
+	if err := cm.ReloadFromRaw([]byte("scrape_configs:\n- job_name: [broken\n")); err == nil {
+		panic("the broken configuration was accepted")
+	}
+	cur := cm.ConfigInfo()
+	cfg := &prom.ConfigInfo{RawContent: cur.RawContent, Config: cur.Config, ConfigHash: cyCoordHash, ExtraConfig: cur.ExtraConfig}
 
 	c := coordinator.NewCoordinator(&coordinator.Option{
 		MaxHeadSeries:    ci.Opts.MaxHead,
@@ -445,7 +567,7 @@ func runCycle(ci *cyInput) []cyOut {
 	}
 	if len(ci.Replicas2) > 0 {
 		// a second cycle of the same coordinator: same explorer objects, new shard scripts
-		rm.ms = buildManagers(ci.Replicas2, now)
+		rm.ms = buildManagers(ci.Replicas2, now, false)
 		panicked, msg = false, ""
 		func() {
 			defer func() {
@@ -459,3 +581,10 @@ func runCycle(ci *cyInput) []cyOut {
 	}
 	return outs
 }
+
+type keyedWriter struct {
+	http.ResponseWriter
+	key string
+}
+
+func (k *keyedWriter) kvhKey() string { return k.key }
